@@ -95,6 +95,15 @@ class LockObj:
         self.held_by_other = z3.Bool(f'{name}_held_by_another_task')
 
     def sym_method(self, ex, name):
+        if name == 'acquire':
+            return BoundBuiltin('Lock.acquire', lambda ex, me: Aw('lock_acquire', lock=me), self)
+        if name == 'release':
+            def release(ex, me):
+                if not me.held_by_me:
+                    raise PyRaise(make_exc('RuntimeError', 'Lock is not acquired.'))
+                me.held_by_me = False
+                me.world.event('release', me)
+            return BoundBuiltin('Lock.release', release, self)
         if name == 'locked':
             return BoundBuiltin('Lock.locked', lambda ex, me: mk_bool(z3.Or(z3.BoolVal(me.held_by_me), me.held_by_other)) if not me.held_by_me else True, self)
         return None
@@ -216,6 +225,31 @@ def _open_connection(ex, *a, **kw):
 
 B.EXT_HOOKS['asyncio.create_task'] = Builtin('asyncio.create_task', _create_task)
 B.EXT_HOOKS['asyncio.sleep'] = Builtin('asyncio.sleep', _sleep)
+
+
+class LoopObj:
+    """The running event loop: only time() (a non-decreasing clock) is modelled."""
+    ALWAYS_TRUE = True
+
+    def __init__(self, world):
+        self.world = world
+
+    def sym_method(self, ex, name):
+        if name == 'time':
+            def time_(ex, me):
+                ts = ex.ghost.setdefault('loop_times', [])
+                t = z3.Real(f'loop_time!{len(ts)}')
+                if ts:
+                    ex.assume(t >= ts[-1])
+                ts.append(t)
+                return Sym(t, 'float')
+            return BoundBuiltin('loop.time', time_, self)
+        return None
+
+
+B.EXT_HOOKS['asyncio.get_running_loop'] = Builtin('asyncio.get_running_loop', lambda ex: LoopObj(world(ex)))
+B.EXT_HOOKS['asyncio.get_event_loop'] = Builtin('asyncio.get_event_loop', lambda ex: LoopObj(world(ex)))
+B.EXT_HOOKS['time.monotonic'] = Builtin('time.monotonic', lambda ex: LoopObj(world(ex)).sym_method(ex, 'time').fn(ex, None))
 B.EXT_HOOKS['asyncio.open_connection'] = Builtin('asyncio.open_connection', _open_connection)
 B.EXT_HOOKS['asyncio.Queue'] = Builtin('asyncio.Queue', lambda ex, *a, **k: QueueObj(world(ex)))
 B.EXT_HOOKS['asyncio.Lock'] = Builtin('asyncio.Lock', lambda ex: LockObj(world(ex)))
@@ -240,6 +274,19 @@ def await_value(ex, v):
             return ex._run_body(v.info, list(v.args), dict(v.kwargs), v.bound)
         finally:
             ex.in_await = old
+    if isinstance(v, Aw) and v.kind == 'lock_acquire':
+        # await lock.acquire(): as on entry of `async with lock`
+        cm = v.info['lock']
+        w = world(ex)
+        if cm.held_by_me:
+            raise Unsupported('re-entrant acquire of an asyncio.Lock (deadlock)')
+        if ex.branch(cm.held_by_other, tag='lock-held'):
+            if w.on_await is None:
+                raise Unsupported('lock wait without an await policy')
+            w.on_await(ex, w, Aw('sleep', seconds='lock-wait'))
+        cm.held_by_me = True
+        w.event('acquire', cm)
+        return True
     if isinstance(v, Aw):
         w = world(ex)
         if w.on_await is None:
